@@ -67,3 +67,7 @@ def roundtrip(inp):
             os.remove(os.path.join(d, f))
         os.rmdir(d)
     return {'violates': bool(bad), 'detail': bad[:4]}
+
+
+# thorough tier (bounded native sweeps): (function, inputs, obligation of the open finding it reproduces or None)
+THOROUGH = [('roundtrip', {}, None)]
